@@ -338,6 +338,10 @@ Stray(b) ==
        { [b EXCEPT !.anns[i].extra = "example: \"abc\"", !.ptag = Tag(b, "strayProp:" \o b.anns[i].kind)] : i \in DOMAIN b.anns }
   \cup { [b EXCEPT !.verbProps = "note: \"x\"", !.ptag = Tag(b, "strayVerbProp")] }
 PerturbMask(b) == UNION {Perturb1(x) : x \in Stray(b)}
+\* ---- C18: the SAME offending annotation line in two methods (whatever is remembered per line text must not carry a position) ----
+SameBad(b) == [b EXCEPT !.anns = [j \in DOMAIN b.anns |-> IF b.anns[j].kind = "Path" THEN [BadAlias(b.anns[j], 5) EXCEPT !.value = b.anns[j].value] ELSE b.anns[j]],
+                        !.ptag = Tag(b, "sameBadAlias")]
+MethodsC18pair == { m @@ [uniq |-> TRUE] : m \in {BaseJ, BaseP, SameBad(BaseJ), SameBad(BaseP), [SameBad(BaseP) EXCEPT !.desc = "Same line, other doc"]} }
 CfgsC10 == { Cfg("gin", "3.0.0", FALSE, NoSec, <<"s1">>) }
 CtrlsC10 == { Ctl("p1", "f1", "AController", pre, "A", <<>>) : pre \in {"/a", "/a/{t}"} }
 MethodsC10single == {BaseJ, BaseF, BaseJr, BaseFr, BaseP} \cup Perturb1(BaseJ) \cup Perturb1(BaseF) \cup Perturb1(BaseJr) \cup Perturb1(BaseFr) \cup Perturb1(BaseP)
